@@ -69,6 +69,17 @@ def stepCtx : List String → Option String
       | some ty, some ver, some h, some f, some r, some es =>
           some (fmtCtx (ElaVerif.PolicyCtx.contextPolicies ty ver h f r es (ctxLetters ins) (ctxLetters outs)))
       | _, _, _, _, _, _ => some "bad-op"
+  | ["e2e", path, h, f, r, es, ins, outs] =>
+      -- the node's real paths (mempool admission, block validation, RPC): a signed TransferAsset (in = A) or an
+      -- unsigned spend of a cross-chain output (in = X); block validation only says "rejected"
+      match Driver.nat? h, Driver.nat? f, Driver.nat? r,
+            (if es = "-" then some [] else (es.splitOn ",").mapM ctxEntry?) with
+      | some h, some f, some r, some es =>
+          let res := ElaVerif.PolicyCtx.contextPolicies 2 0 h f r es (ctxLetters ins) (ctxLetters outs)
+          if path = "block" then
+            some (if res = .passed then "passed" else "rejected")
+          else some (fmtCtx res)
+      | _, _, _, _ => some "bad-op"
   | _ => none
 
 def stepC32 : List String → String
